@@ -51,3 +51,5 @@ def run(ctx):
     ctx.floor("D1", 1)
     B.b14_stacks_balanced(ctx, only_classes=("Isomorphism",))
     ctx.floor("B14", 1)
+    B.b15_assumed_matches_withdrawn(ctx)
+    ctx.floor("B15", 1)
